@@ -1,11 +1,12 @@
 """C10 obligations (DESIGN.md C10)."""
-BASE = dict(src="counters.c", include=["asmallg.c"], units=["asmsub.c", "as.c", "asmdef.c"], stubs=["diag.c", "fmt_off.c"],
+BASE = dict(src="counters.c", include=["asmallg.c"], units=["asmsub.c", "asmdef.c"], stubs=["diag.c", "fmt_off.c"],
             functions=["asmallg.c:CodeORG", "CodeORG_Core", "CodeRORG", "CodeALIGN", "CodePHASE", "CodeDEPHASE", "SetNSeg", "CodeSAVE", "CodeRESTORE",
-                       "as.c:WriteCode", "asmsub.c:ProgCounter", "asmsub.c:EProgCounter", "asmsub.c:Granularity", "asmsub.c:BookKeeping"],
-            assumes=["argument values arrive through a stub evaluator (arbitrary 64-bit values, evaluation succeeds)", "code-file writer (NewRecord/WriteBytes) cut",
+                       "asmsub.c:ProgCounter", "asmsub.c:EProgCounter", "asmsub.c:Granularity", "asmsub.c:BookKeeping"],
+            assumes=["argument values arrive through a stub evaluator (arbitrary 64-bit values, evaluation succeeds)", "as.c WriteCode cut to its contract (PC += CodeLen), verified separately in C04 writecode",
                      "ChkPC accepts every address; CPU unchanged across SAVE/RESTORE; use list and debug info off", "segments: CODE (byte-granular) and DATA (word-granular)"])
 OBLIGATIONS = [
-    dict(BASE, name="counters_k3", defs=["K=3", "STRINGSIZE=16", "ALIGN_BELOW_2G"], unwind=10, unwind_fn={"harness": 16},
+    dict(BASE, name="counters_k2", defs=["K=2", "STRINGSIZE=16"], unwind=10, unwind_fn={"harness": 16}, bounds="all sequences of 2 operations, arbitrary arguments, any address below 2^32 - 65536", timeout=1500),
+    dict(BASE, name="counters_k3", defs=["K=3", "STRINGSIZE=16", "ALIGN_BELOW_2G"], tier="thorough", unwind=10, unwind_fn={"harness": 16},
          bounds="all sequences of 3 operations from {ORG, RORG, ALIGN n, PHASE, DEPHASE, SEGMENT, SAVE, RESTORE, emit 1..8, reserve 1..65536}, arbitrary 64-bit arguments (ALIGN: 1..65535, address < 2^31)",
          timeout=1500),
     dict(BASE, name="align_32bit", defs=["K=1", "STRINGSIZE=16"], unwind=10, unwind_fn={"harness": 16},
